@@ -234,6 +234,7 @@ def main():
         "implementation_only_histories": zn, "every_module_class_histories": an, "every_module_class_distribution": astats, "distribution": stats, "samples": summ[:1]})
     v.assumptions = ["level models are Fuzzy ART in the correspondence; the theorems are kernel-abstract",
                      "unsupervised mode and SMART are tied to the theorems through the ARTMAP correspondence of C09 and the implementation-side oracle"]
+    v.cov["added_after_wave_7"] = 'every-module-class histories: the caller overwrites its batch arrays after each training call; top column of labels_deep_ against the presented targets'
     sys.exit(v.finish())
 
 
